@@ -85,6 +85,181 @@ fn not_looser(obs: Pol, bound: Pol) -> bool {
     combine(obs, bound) == obs
 }
 
+// ---------------------------------------------------------------- every derive form that can carry a hint
+
+/// The hint of an object type has to be registered by whichever derive form declares the type. A second, small
+/// schema declares one object per form — `#[Object]`, `#[derive(SimpleObject)]`, a generic `SimpleObject` registered
+/// through `concrete(...)` (two instantiations), `SimpleObject` + `#[ComplexObject]`, a `MergedObject` of two hinted
+/// halves — each with its own object-level hint and, where the form allows, a field-level hint; every object-only
+/// selection over it has an exactly known policy (the combination of the hints written below, by hand).
+mod forms {
+    use async_graphql::*;
+
+    pub struct Plain;
+    #[Object(cache_control(max_age = 41))]
+    impl Plain {
+        async fn v(&self) -> i32 {
+            1
+        }
+        #[graphql(cache_control(max_age = 3))]
+        async fn short(&self) -> i32 {
+            2
+        }
+    }
+
+    #[derive(SimpleObject)]
+    #[graphql(cache_control(max_age = 42, private))]
+    pub struct Simple {
+        pub v: i32,
+        #[graphql(cache_control(max_age = 4))]
+        pub short: i32,
+    }
+
+    #[derive(SimpleObject)]
+    #[graphql(concrete(name = "BoxedInt", params(i32)), concrete(name = "BoxedText", params(String)))]
+    #[graphql(cache_control(max_age = 43, private))]
+    pub struct Boxed<T: OutputType> {
+        pub v: T,
+        #[graphql(cache_control(max_age = 6))]
+        pub short: i32,
+    }
+
+    #[derive(SimpleObject)]
+    #[graphql(complex, cache_control(max_age = 44))]
+    pub struct Mixed {
+        pub v: i32,
+    }
+    #[ComplexObject]
+    impl Mixed {
+        #[graphql(cache_control(no_cache))]
+        async fn live(&self) -> i32 {
+            3
+        }
+        async fn calm(&self) -> i32 {
+            4
+        }
+    }
+
+    #[derive(Default)]
+    pub struct HalfA;
+    #[Object(cache_control(max_age = 45))]
+    impl HalfA {
+        async fn a(&self) -> i32 {
+            5
+        }
+    }
+    #[derive(Default)]
+    pub struct HalfB;
+    #[Object(cache_control(max_age = 46, private))]
+    impl HalfB {
+        async fn b(&self) -> i32 {
+            6
+        }
+    }
+    #[derive(MergedObject, Default)]
+    pub struct Merged(HalfA, HalfB);
+
+    pub struct Query;
+    #[Object]
+    impl Query {
+        async fn plain(&self) -> Plain {
+            Plain
+        }
+        async fn simple(&self) -> Simple {
+            Simple { v: 1, short: 2 }
+        }
+        async fn boxed_int(&self) -> Boxed<i32> {
+            Boxed { v: 1, short: 2 }
+        }
+        async fn boxed_text(&self) -> Boxed<String> {
+            Boxed { v: "x".into(), short: 2 }
+        }
+        async fn mixed(&self) -> Mixed {
+            Mixed { v: 1 }
+        }
+        async fn merged(&self) -> Merged {
+            Merged::default()
+        }
+        async fn simples(&self) -> Vec<Simple> {
+            vec![Simple { v: 1, short: 2 }]
+        }
+    }
+
+    pub fn schema() -> Schema<Query, EmptyMutation, EmptySubscription> {
+        Schema::new(Query, EmptyMutation, EmptySubscription)
+    }
+}
+
+/// (root field, object-level hint, [(sub-field, field-level hint)])
+fn forms_table() -> Vec<(&'static str, Pol, Vec<(&'static str, Pol)>)> {
+    let p = |public: bool, age: i32| Pol { public, age };
+    vec![
+        ("plain", p(true, 41), vec![("v", UNSET), ("short", p(true, 3))]),
+        ("simple", p(false, 42), vec![("v", UNSET), ("short", p(true, 4))]),
+        ("simples", p(false, 42), vec![("v", UNSET), ("short", p(true, 4))]),
+        ("boxedInt", p(false, 43), vec![("v", UNSET), ("short", p(true, 6))]),
+        ("boxedText", p(false, 43), vec![("v", UNSET), ("short", p(true, 6))]),
+        ("mixed", p(true, 44), vec![("v", UNSET), ("live", p(true, -1)), ("calm", UNSET)]),
+        // Merged = HalfA (max-age 45) + HalfB (private, max-age 46)
+        ("merged", p(false, 45), vec![("a", UNSET), ("b", UNSET)]),
+    ]
+}
+
+fn derive_forms(run: &Run) {
+    let schema = forms::schema();
+    let fast = {
+        let s = async_graphql::Schema::build(forms::Query, async_graphql::EmptyMutation, async_graphql::EmptySubscription).validation_mode(async_graphql::ValidationMode::Fast).finish();
+        s
+    };
+    let table = forms_table();
+    let mut r = Rng::new(rng::mix(&[run.seed, 2020]));
+    let n = run.scale(400, 20_000);
+    for i in 0..n {
+        // 1-3 root fields, each with a non-empty subset of its sub-fields, optionally behind `... on <Type>`-free
+        // inline fragments (no type condition: still an object-only selection)
+        let mut want = UNSET;
+        let mut parts = vec![];
+        let k = 1 + r.below(3);
+        for j in 0..k {
+            let (root, obj, subs) = r.pick(&table).clone();
+            want = combine(want, obj);
+            let mut picked: Vec<&(&str, Pol)> = subs.iter().filter(|_| r.bool()).collect();
+            if picked.is_empty() {
+                picked.push(r.pick(&subs));
+            }
+            let mut inner = vec![];
+            for (f, h) in picked {
+                want = combine(want, *h);
+                inner.push(f.to_string());
+            }
+            let body = if r.chance(1, 4) { format!("... {{ {} }}", inner.join(" ")) } else { inner.join(" ") };
+            parts.push(format!("r{j}: {root} {{ {body} }}"));
+        }
+        let doc = format!("{{ {} }}", parts.join(" "));
+        for (mode, s) in [("Strict", &schema), ("Fast", &fast)] {
+            if mode == "Fast" && i % 3 != 0 {
+                continue;
+            }
+            let resp = vh_core::vsched::block_on(s.execute(doc.as_str()));
+            run.eval();
+            run.count("derive_form_requests", 1);
+            if !resp.errors.is_empty() {
+                run.violation(&format!("C20-forms-error:{:x}", rng::hash_str(&doc)), &format!("derive-forms schema ({mode}): unexpected errors {:?} for {doc}", resp.errors), json!({"document": doc, "mode": mode}));
+                continue;
+            }
+            let got = Pol::of(resp.cache_control);
+            run.nontrivial(rng::mix(&[rng::hash_str(&doc), 2020]));
+            if got != want {
+                run.violation(
+                    &format!("C20-forms:{:x}", rng::mix(&[rng::hash_str(&doc), rng::hash_str(mode)])),
+                    &format!("derive-forms schema ({mode}): response policy ({}) differs from the combination of the declared hints ({}) for the object-only selection {doc}", got.text(), want.text()),
+                    json!({"document": doc, "mode": mode, "observed": got.json(), "expected": want.json(), "flavour": "derive-forms"}),
+                );
+            }
+        }
+    }
+}
+
 // ---------------------------------------------------------------- what the Rust source of S1 declares
 
 fn type_hint(ty: &str) -> Pol {
@@ -992,11 +1167,12 @@ pub fn main() {
         run.finish_code_exit();
     }
     run.set_floors(run.scale(2_000, 100_000), run.scale(500, 20_000));
-    for c in ["responses_judged", "soundness_checks", "soundness_checks_through_abstract_types", "exact_checks", "law_checks", "header_checks", "resolver_events", "witness_executions"] {
+    for c in ["responses_judged", "soundness_checks", "soundness_checks_through_abstract_types", "exact_checks", "law_checks", "header_checks", "derive_form_requests", "resolver_events", "witness_executions"] {
         run.require_counter(c);
     }
     laws(&run);
     witnesses(&run);
+    derive_forms(&run);
     documents(&run);
     run.extra("schema", json!("S1 (harness/schema/src/s1.rs), Strict and Fast validation modes"));
     run.extra("document_part", json!({"exhaustive": false, "sampled": true}));
